@@ -113,3 +113,25 @@ def sequence(job):
                 p.unlink()
         os.rmdir(base)
     return {"steps": out}
+
+
+def parse_utf8(job):
+    """non-ASCII text (outside the Coq model): the same text from a UTF-8 file and as a string"""
+    text = job["text"]
+    out = {}
+    TMP.mkdir(parents=True, exist_ok=True)
+    fd, name = tempfile.mkstemp(dir=str(TMP), suffix=".pddl")
+    try:
+        with os.fdopen(fd, "wb") as fh:
+            fh.write(text.encode("utf-8"))
+        try:
+            out["file"] = {"ok": show(PDDLTokenizer(file_path=Path(name)).parse())}
+        except Exception as e:  # noqa
+            out["file"] = {"raised": type(e).__name__}
+    finally:
+        os.unlink(name)
+    try:
+        out["str"] = {"ok": show(PDDLTokenizer(pddl_str=text).parse())}
+    except Exception as e:  # noqa
+        out["str"] = {"raised": type(e).__name__}
+    return out
